@@ -64,6 +64,27 @@ def run(ctx):
     pool_rule(ctx)
 
 
+def pair_positions(body_or_tys, facts):
+    """positions (1-based for parameters of a body, 0-based for an argument type list) of the field index and of the
+    field's node in a signature, found by type: `usize` and `&SchemaNode`; one parameter of a small private struct type
+    holding both stands for both"""
+    if isinstance(body_or_tys, list):
+        tys = list(enumerate(body_or_tys))
+    else:
+        tys = [(i, body_or_tys.local_ty(i)) for i in range(1, body_or_tys.nargs + 1)]
+    idx = {i for i, t in tys if t == 'usize'}
+    node = {i for i, t in tys if t.lstrip('&').startswith(('schema::self_referential::SchemaNode', "'s schema::self_referential::SchemaNode")) or
+            (t.startswith('&') and 'schema::self_referential::SchemaNode<' in t and 'Vec<' not in t and 'RecordState' not in t)}
+    for i, t in tys:
+        a = facts.adts.get(t.split('<')[0])
+        if a and a['kind'] == 'struct' and a.get('vis') != 'pub':
+            ftys = [x['ty'] for x in a['variants'][0]['fields']]
+            if len(ftys) == 2 and 'usize' in ftys and any('SchemaNode<' in x and x.startswith('&') for x in ftys):
+                idx.add(i)
+                node.add(i)
+    return idx, node
+
+
 def fieldidx(ctx, fi):
     # Ok tuples returned
     oks = []
@@ -137,6 +158,7 @@ def fieldidx(ctx, fi):
 
 
 def pairing(ctx, sv):
+    IDXP, NODEP = pair_positions(sv, ctx.f)
     incs = []
     for bb in sorted(sv.live_blocks()):
         if sv.is_cleanup(bb):
@@ -177,7 +199,7 @@ def pairing(ctx, sv):
     ok = False
     if main:
         for g in cmp_guards(sv, main[0]):
-            if g['op'] == 'Eq' and ((g['l'].params() == {3} and 'current_idx' in g['r'].fields) or (g['r'].params() == {3} and 'current_idx' in g['l'].fields)):
+            if g['op'] == 'Eq' and ((g['l'].params() and g['l'].params() <= IDXP and 'current_idx' in g['r'].fields) or (g['r'].params() and g['r'].params() <= IDXP and 'current_idx' in g['l'].fields)):
                 ok = True
     ctx.ob('PAIRING', 'in-order-to-main-writer', ok, short_loc(sv.span), 'value is serialised into the main writer only under field_idx == current_idx: %s' % ok)
     ok = False
@@ -188,7 +210,7 @@ def pairing(ctx, sv):
         ok = any(a[0] == 'agg' and a[1] == 'ser::SerializerState' for a in so.atoms) or 'writer' in so.fields
         ne = False
         for g in cmp_guards(sv, bb):
-            if g['op'] == 'Ne' and ((g['l'].params() == {3} and 'current_idx' in g['r'].fields) or (g['r'].params() == {3} and 'current_idx' in g['l'].fields)):
+            if g['op'] == 'Ne' and ((g['l'].params() and g['l'].params() <= IDXP and 'current_idx' in g['r'].fields) or (g['r'].params() and g['r'].params() <= IDXP and 'current_idx' in g['l'].fields)):
                 ne = True
         # its writer is not the main writer
         wmain = True
@@ -201,7 +223,7 @@ def pairing(ctx, sv):
         det = 'out-of-order value is serialised into a side SerializerState (not the main writer), under field_idx != current_idx: %s' % ok
     ctx.ob('PAIRING', 'out-of-order-to-side-buffer', ok, short_loc(sv.span), det)
     # both use the node handed in
-    okn = all(origin(sv, s['rv']['ops'][s['rv']['fields'].index('schema_node')]).params() == {4} for bb, s in aggs) and len(aggs) == 2
+    okn = all(origin(sv, s['rv']['ops'][s['rv']['fields'].index('schema_node')]).params() and origin(sv, s['rv']['ops'][s['rv']['fields'].index('schema_node')]).params() <= NODEP for bb, s in aggs) and len(aggs) == 2
     ctx.ob('PAIRING', 'node-is-the-fields-node', okn, short_loc(sv.span), 'both serializers use the node that field_idx paired with the index: %s' % okn)
 
 
@@ -287,7 +309,8 @@ def splice(ctx, sv):
     ok = False
     for bb, t in sv.calls():
         if call_matches(t, ['IndexMut::index_mut', 'IndexMut<I>>::index_mut']) and 'buffers' in origin(sv, t['args'][0]).fields:
-            ok = origin(sv, t['args'][1]).params() == {3} and not origin(sv, t['args'][1]).has_arith()
+            so_ = origin(sv, t['args'][1])
+            ok = bool(so_.params()) and so_.params() <= pair_positions(sv, ctx.f)[0] and not so_.has_arith()
     ctx.ob('SPLICE', 'stored-in-own-slot', ok, short_loc(sv.span), 'out-of-order value is stored at buffers[field_idx]: %s' % ok)
 
 
@@ -424,8 +447,10 @@ def present(ctx, fi, sv):
     if mv is not None:
         for bb, t in mv.calls():
             if (t.get('resolved') or t.get('callee')) == sv.id:
-                io, no = origin(mv, t['args'][2]), origin(mv, t['args'][3])
-                ok = 'field_idx' in io.fields and 'schema_node' in no.fields and 'key_hint' in (io.fields | set(deep_fields(mv, t['args'][2], 3)))
+                ip_, np_ = pair_positions(t.get('arg_tys', []), f)
+                ok = bool(ip_) and bool(np_)
+                for k_ in ip_ | np_:
+                    ok = ok and 'key_hint' in (origin(mv, t['args'][k_]).fields | set(deep_fields(mv, t['args'][k_], 3)))
     # map presentation, both entry points: the (index, node) pair is exactly what the key lookup returned
     def key_lookup_calls(b):
         out = []
@@ -446,7 +471,8 @@ def present(ctx, fi, sv):
         ks = key_lookup_calls(me)
         for bb, t in me.calls():
             if (t.get('resolved') or t.get('callee')) == sv.id and ks:
-                oke = from_lookup(me, t['args'][2], ks) and from_lookup(me, t['args'][3], ks)
+                ip_, np_ = pair_positions(t.get('arg_tys', []), f)
+                oke = bool(ip_) and bool(np_) and all(from_lookup(me, t['args'][k_], ks) for k_ in ip_ | np_)
     ctx.ob('PRESENT', 'map-entry-uses-key-lookup', oke, short_loc(me.span) if me else None,
            'serialize_entry hands serialize_record_value the (index, node) returned by the key lookup, nothing else: %s' % oke)
     mk = fn_by_label(f, '<' + SM + 'SerializeMapAsRecordOrMapOrDuration as serde_core::ser::SerializeMap>::serialize_key')
@@ -457,8 +483,7 @@ def present(ctx, fi, sv):
         for bb in sorted(mk.live_blocks()):
             for st in mk.stmts(bb):
                 if 'assign' in st and st['rv']['k'] == 'agg' and st['rv'].get('variant') == 'KeyLocation' and ks:
-                    fl = st['rv']['fields']
-                    okk = from_lookup(mk, st['rv']['ops'][fl.index('field_idx')], ks) and from_lookup(mk, st['rv']['ops'][fl.index('schema_node')], ks)
+                    okk = bool(st['rv']['ops']) and all(from_lookup(mk, o_, ks) for o_ in st['rv']['ops'])
     ctx.ob('PRESENT', 'map-key-records-key-lookup', okk, short_loc(mk.span) if mk else None,
            'serialize_key records the (index, node) returned by the key lookup in KeyHint::KeyLocation: %s' % okk)
     ctx.ob('PRESENT', 'map-value-uses-key-location', ok, short_loc(mv.span) if mv else None, 'serialize_value passes the (index, node) recorded by serialize_key: %s' % ok)
